@@ -20,7 +20,7 @@ def applyW (wp : Option (DNode → Option DNode)) (p : DNode) : Option DNode :=
 
 /-- the line terminator added after an unterminated paragraph -/
 def termOf (p : DNode) : List DNode :=
-  match (leavesList [p]).getLast? with
+  match lastTok p.children with
   | some t => if t.1 == .NEWLINE then [] else [Node.tok .NEWLINE ['\n']]
   | none => []
 
@@ -282,7 +282,7 @@ theorem deb822Wrap_intro (le : Option (DNode → DNode → Bool)) (wp : Option (
   have hGG : ∀ pp : List DNode × DNode,
       (match allTokens pp.1, some pp.2 with
       | some pre, some p' =>
-        some (withNewlines pre ++ [p'] ++ match (leavesList [p']).getLast? with
+        some (withNewlines pre ++ [p'] ++ match lastTok p'.children with
           | some t => if t.1 == .NEWLINE then [] else [Node.tok .NEWLINE ['\n']]
           | none => [])
       | _, _ => none) = docGroupOpt pp := by
